@@ -17,13 +17,18 @@ under an explicit hypothesis (`table_roundtrip_partial`, now discharged by `type
 Domain of the file-level theorems: Spec/ArscFile.lean (`wfTable`; 64-byte configurations, 288-byte
 package headers, strings shorter than 0x8000 units/bytes, no styles).  On top of the parse: `_analyse`
 does not raise and `resource_values` is the table's (`table_resource_values`), `get_packages_names`
-(`table_packages_names`); the other listings and the resolver's text rendering are not composed in
-Lean (correspondence and oracle cover them).
+(`table_packages_names`), `get_locales`, `get_types`, `get_res_id_by_key`, `get_string`
+(`table_locales`, `table_types`, `table_key_ids`, `table_get_string`), and the resolved values: the
+bridge from `resource_values` to the resolver's table of C29 and what `get_resolved_res_configs`
+returns on it (`table_resolved_values`).  Excluded by hypothesis, not judged: tables with a complex
+entry in a type named string / integer / color / dimen (`analysable`; the code raises AttributeError
+there, see the `example` below) and tables with two packages of the same name.
 Lemmas: AgVerif/Proof/Arsc*.lean; file-level format: AgVerif/Spec/ArscFile.lean.
 -/
-import AgVerif.Proof.ArscAnalyseTable
+import AgVerif.Proof.ArscListings
 namespace AgVerif.C28
 open AgVerif.Arsc AgVerif.Gen.ArscConsts AgVerif.Spec.Arsc
+open AgVerif.Resolve (refFree tokE)
 
 /-- plain entry array (no flag): every slot list decodes to its present slots, NO_ENTRY skipped -/
 theorem entries_roundtrip_plain (flags : Nat) (slots : List (Option Nat)) (rest : List Nat)
@@ -315,6 +320,92 @@ theorem table_resource_values (l : Layout) (t : Table) (hwf : wfTable l t = true
   obtain ⟨an, h1, h2⟩ := resource_values_enc l t hwf hnames han
   exact ⟨an, h1, h2, fun rid hd => by rw [h2 rid, merged_none_nodup _ hd]⟩
 
+/-- (7) the RESOLVED values.  On `ARSCParser(encode t)`, for every table of the domain (distinct
+    package names, `analysable`): `_analyse` succeeds; the table the resolver works on
+    (`resolveTable`, the input of C29's model) exists, and under every id it holds exactly what the
+    table stores for that id — its configurations in order of first appearance, each with the
+    entry stored last (`merged none (storedFor t rid)`), every entry as the resolver sees it
+    (`optsT`: references stay references, any other `Res_value` is its rendered text, strings looked
+    up in the table's global strings, a compact entry read by its data type), every configuration
+    replaced by a key that is 0 for the default configuration and injective on the stored ones.
+    On that table, for every id ≠ 0 and every requested configuration, `get_resolved_res_configs`
+    returns, and the concrete values it returns are exactly those reachable through references
+    (C29's `ReachVal`); when the selected entries hold no reference the returned list is exactly
+    the stored values of the selected configurations, in order, one element per entry
+    (`(config, text)` for a simple/compact entry, `(config, [texts…])` for a complex one). -/
+theorem table_resolved_values (l : Layout) (t : Table) (hwf : wfTable l t = true)
+    (hnames : (t.packages.map fun p => utf8s p.name).Nodup) (han : analysable t = true) :
+    ∃ an rt, (parseTable (encTable l t).toArray).bind analyse = some an ∧
+      resolveTable (parsedOf l t) an = some rt ∧
+      (∀ rid, rt.options rid
+        = (merged none (storedFor t rid)).map (optsT (strAt t.strings) (cfgKeys an))) ∧
+      cfgKey (cfgKeys an) [0, 0, 0, 0, 0, 0, 0, 0, 0] = 0 ∧
+      (∀ rid opts, merged none (storedFor t rid) = some opts → ∀ ca ∈ opts, ca.1 ∈ cfgKeys an) ∧
+      (∀ c ∈ cfgKeys an, ∀ c', cfgKey (cfgKeys an) c = cfgKey (cfgKeys an) c' → c = c') ∧
+      (∀ w rid, rid ≠ 0 → ∃ out, Resolve.resolveV rt w rid = .ok out ∧
+        ∀ tok, tok.isValue = true → (tok ∈ out ↔ AgVerif.Spec.Reach.ReachVal rt w rid tok)) ∧
+      (∀ w rid, rid ≠ 0 → (∀ p ∈ Resolve.getResConfigs rt rid w, refFree p.2 = true) →
+        Resolve.resolveV rt w rid
+          = .ok ((Resolve.getResConfigs rt rid w).flatMap fun p => tokE p.1 p.2)) := by
+  obtain ⟨an, rt, h1, h2, h3⟩ := resolveTable_enc l t hwf hnames han
+  obtain ⟨an', h1', h4⟩ := resource_values_enc l t hwf hnames han
+  have : an' = an := by rw [h1] at h1'; injection h1' with e; exact e.symm
+  subst this
+  refine ⟨an', rt, h1, h2, h3, cfgKey_default an', ?_, fun c hc c' h => cfgKey_inj an' c c' hc h,
+    fun w rid hr => resolveV_ok_reach rt w rid hr, fun w rid hr h => AgVerif.Resolve.resolveV_refFree rt w rid hr h⟩
+  intro rid opts ho ca hca
+  rw [← h4 rid] at ho
+  exact stored_mem_cfgKeys an' rid opts (dictGet_some_mem _ _ _ ho) ca.1 ca.2 hca
+
+/-- listing: `get_locales(package)` on an encoded table is the locale strings of the package's type
+    chunks (`get_language_and_region()` of each chunk's configuration, also of chunks without
+    entries), each once, in order of first appearance (`firstsFrom []`, see `firsts_spec`) -/
+theorem table_locales (l : Layout) (t : Table) (hwf : wfTable l t = true)
+    (hnames : (t.packages.map fun p => utf8s p.name).Nodup) (han : analysable t = true) :
+    ∃ an, (parseTable (encTable l t).toArray).bind analyse = some an ∧
+      ∀ p ∈ t.packages, getLocales an (utf8s p.name) = some (firstsFrom [] (p.chunks.map locT)) := by
+  obtain ⟨an, h, hL, _⟩ := listings_enc l t hwf hnames han
+  exact ⟨an, h, hL⟩
+
+/-- listing: `get_types(package, locale)` is `"public"` followed by the type names of the entries of
+    the package's chunks with that locale, each once, in order of first appearance; KeyError
+    (`none`) when no chunk of the package has that locale -/
+theorem table_types (l : Layout) (t : Table) (hwf : wfTable l t = true)
+    (hnames : (t.packages.map fun p => utf8s p.name).Nodup) (han : analysable t = true) :
+    ∃ an, (parseTable (encTable l t).toArray).bind analyse = some an ∧
+      ∀ p ∈ t.packages, ∀ loc, getTypes an (utf8s p.name) loc
+        = if p.chunks.any (fun c => locT c == loc)
+          then some (firstsFrom [strBytes "public"] ((evsT t p loc).map (·.1))) else none := by
+  obtain ⟨an, h, _, hT, _⟩ := listings_enc l t hwf hnames han
+  exact ⟨an, h, hT⟩
+
+/-- listing: `get_res_id_by_key(package, type, key)` is the id of the LAST entry in file order whose
+    package name, type name and key name are the given ones; `None` when there is none -/
+theorem table_key_ids (l : Layout) (t : Table) (hwf : wfTable l t = true)
+    (hnames : (t.packages.map fun p => utf8s p.name).Nodup) (han : analysable t = true) :
+    ∃ an, (parseTable (encTable l t).toArray).bind analyse = some an ∧
+      ∀ pkg ty key, getResIdByKey an pkg ty key = lastVal (keyPairsT t) (pkg, ty, key) := by
+  obtain ⟨an, h, _, _, _, hK⟩ := listings_enc l t hwf hnames han
+  exact ⟨an, h, fun pkg ty key => hK (pkg, ty, key)⟩
+
+/-- listing: `get_string(package, name, locale)` is the FIRST `[name, value]` in file order among the
+    entries of the package's chunks of that locale whose type is named "string", `value` being the
+    global string at the entry's data; `None` when there is none -/
+theorem table_get_string (l : Layout) (t : Table) (hwf : wfTable l t = true)
+    (hnames : (t.packages.map fun p => utf8s p.name).Nodup) (han : analysable t = true) :
+    ∃ an, (parseTable (encTable l t).toArray).bind analyse = some an ∧
+      ∀ p ∈ t.packages, ∀ name loc, getString an (utf8s p.name) name loc
+        = (stringPairs (evsT t p loc)).find? (·.1 == name) := by
+  obtain ⟨an, h, _, _, hS, _⟩ := listings_enc l t hwf hnames han
+  exact ⟨an, h, hS⟩
+
+/-- what "each once, in order of first appearance" means: `firstsFrom [] xs` has no duplicates and
+    exactly the elements of `xs` (its order is that of the fold that appends an element when it is
+    seen for the first time) -/
+theorem firsts_spec {α : Type} [BEq α] [LawfulBEq α] (xs : List α) :
+    (firstsFrom [] xs).Nodup ∧ ∀ x, x ∈ firstsFrom [] xs ↔ x ∈ xs :=
+  ⟨nodup_firstsFrom [] xs List.nodup_nil, fun x => by rw [mem_firstsFrom]; simp⟩
+
 /-! ### non-vacuity -/
 
 example : entryArray 0 3 (encPlain [some 0, none, some 16] ++ [9]) = some ([(0, 0), (16, 2)], [9]) := by decide
@@ -371,5 +462,20 @@ example : analysable ⟨[], [⟨1, [97], [[115, 116, 114, 105, 110, 103]], [],
     [⟨1, ⟨0, 0, 0, 0, 0, 0, 0, 0, 0⟩, [some (.complex 1 0 0 [])]⟩]⟩]⟩ = false := by decide +kernel
 example : ((viewTable exTable).packages.map fun p => p.chunks.map fun c => c.entries.map (·.1))
     = [[[0x7F010000, 0x7F010002], [0x7F020001, 0x7F020002], []], [[0x02010000]]] := by decide
+
+/-- the input excluded by `analysable`: a complex entry in a type named "string" — the model of
+    `_analyse` raises (the code: AttributeError, `ARSCResTableEntry` has no `key`) -/
+def badTable : Table := ⟨[], [⟨1, [97], [[115, 116, 114, 105, 110, 103]], [[107]],
+    [⟨1, ⟨0, 0, 0, 0, 0, 0, 0, 0, 0⟩, [some (.complex 1 0 0 [])]⟩]⟩]⟩
+example : wfTable exLayout badTable = true := by decide +kernel
+example : analysable badTable = false := by decide +kernel
+example : (parseTable (encTable exLayout badTable).toArray).bind analyse = none := by
+  rw [table_roundtrip_parse exLayout badTable (by decide +kernel)]; decide +kernel
+example : firstsFrom [] [3, 1, 3, 2, 1] = [3, 1, 2] := by decide
+example : (exTable.packages.map fun p => firstsFrom [] (p.chunks.map locT))
+    = [[[0, 0], [102, 114]], [[102, 114]]] := by decide +kernel
+example : lastVal (keyPairsT exTable) ([97, 46, 98], [115], [107, 51]) = some 0x7F020002 := by decide +kernel
+example : (storedFor exTable 0x7F010002).map (fun ca => optsT (strAt exTable.strings) [[0, 0, 0, 0, 0, 0, 0, 0, 0]] [ca])
+    = [[(0, .simple (.lit "3432"))]] := by decide +kernel
 
 end AgVerif.C28
